@@ -12,8 +12,10 @@ import (
 	"fmt"
 	"math/rand"
 	"os"
+	"regexp"
 	"sort"
 	"strconv"
+	"strings"
 
 	"github.com/alttpo/snes/emulator/bus"
 	"github.com/alttpo/snes/emulator/cpu65c816"
@@ -224,7 +226,25 @@ type sideT struct {
 	PanicS  string   `json:"panics,omitempty"`
 }
 
+type lineT struct {
+	Ok    bool   `json:"ok"`
+	Bank  int    `json:"bank"`
+	Addr  int    `json:"addr"`
+	Bytes []int  `json:"bytes"`
+	Mn    string `json:"mn"`
+	Arg   string `json:"arg"` // normalised: lower case, no blanks, "sn" -> "s", "$(" -> "($"
+	A     string `json:"A"`
+	X     string `json:"X"`
+	Y     string `json:"Y"`
+	Flags string `json:"flags"`
+	Raw   string `json:"raw"`
+}
+
 type stepEv struct {
+	Line *struct {
+		Pri lineT `json:"pri"`
+		Alt lineT `json:"alt"`
+	} `json:"line,omitempty"`
 	Irq  bool     `json:"irq"`
 	Tag  string   `json:"tag"`
 	Seed int      `json:"seed"`
@@ -275,6 +295,72 @@ func (p *cpuPair) stepAlt() (s sideT) {
 		p.dirtyA[w[0]] = true
 	}
 	return
+}
+
+var reTraceCore = regexp.MustCompile(`([0-9a-f]{2}):([0-9a-f]{4})[|│]([0-9a-f ]*?) *[|│]([a-z]{3}) ([^|│\n]*)`)
+var reTraceRegs = regexp.MustCompile(`A=([0-9a-f-]{4}) X=([0-9a-f-]{4}) Y=([0-9a-f-]{4})`)
+var reTraceFlags = regexp.MustCompile(`(?i) ([n-][v-][m-][x-][d-][i-][z-][c-])(?:[ |\n]|$)`)
+
+func parseTraceLine(raw string) (l lineT) {
+	l.Raw = strings.TrimSpace(raw)
+	l.Bytes = []int{}
+	m := reTraceCore.FindStringSubmatch(raw)
+	if m == nil {
+		return
+	}
+	b, _ := strconv.ParseInt(m[1], 16, 32)
+	a, _ := strconv.ParseInt(m[2], 16, 32)
+	l.Bank, l.Addr = int(b), int(a)
+	l.Bytes = []int{}
+	for _, h := range strings.Fields(m[3]) {
+		v, err := strconv.ParseInt(h, 16, 32)
+		if err != nil {
+			return
+		}
+		l.Bytes = append(l.Bytes, int(v))
+	}
+	l.Mn = m[4]
+	arg := strings.ToLower(strings.ReplaceAll(m[5], " ", ""))
+	arg = strings.ReplaceAll(arg, "sn", "s")
+	arg = strings.ReplaceAll(arg, "$(", "($")
+	l.Arg = arg
+	if r := reTraceRegs.FindStringSubmatch(raw); r != nil {
+		l.A, l.X, l.Y = r[1], r[2], r[3]
+	}
+	if f := reTraceFlags.FindStringSubmatch(raw); f != nil {
+		l.Flags = strings.ToLower(f[1])
+	}
+	l.Ok = true
+	return
+}
+
+func (p *cpuPair) traceLines() *struct {
+	Pri lineT `json:"pri"`
+	Alt lineT `json:"alt"`
+} {
+	out := &struct {
+		Pri lineT `json:"pri"`
+		Alt lineT `json:"alt"`
+	}{}
+	func() {
+		defer func() {
+			if e := recover(); e != nil {
+				out.Pri = lineT{Raw: "panic: " + fmt.Sprint(e), Bytes: []int{}}
+			}
+		}()
+		out.Pri = parseTraceLine(string(p.pri.DisassembleCurrentPC(nil)))
+	}()
+	func() {
+		defer func() {
+			if e := recover(); e != nil {
+				out.Alt = lineT{Raw: "panic: " + fmt.Sprint(e), Bytes: []int{}}
+			}
+		}()
+		var sb strings.Builder
+		p.alt.DisassembleCurrentPC(&sb)
+		out.Alt = parseTraceLine(sb.String())
+	}()
+	return out
 }
 
 var corner16 = []int{0, 1, 0xFF, 0x100, 0x7FFF, 0x8000, 0xFFFE, 0xFFFF, 0x00FE, 0x0101, 0xFF00}
@@ -358,6 +444,8 @@ func overlapsInstr(a Arch, bank int, lo int, n int) bool {
 }
 
 // single step from a fresh random state; ops = opcode set to draw from
+var traceMode bool
+
 func (p *cpuPair) single(r *rand.Rand, op byte, mode string, w *json.Encoder) {
 	var a Arch
 	for {
@@ -389,6 +477,9 @@ func (p *cpuPair) single(r *rand.Rand, op byte, mode string, w *json.Encoder) {
 	loadPri(p.pri, a, r, all)
 	loadAlt(p.alt, a, r, all)
 	ev := stepEv{Tag: mode, Seed: int(p.seed), Ov: p.ov(), Pre: projPri(p.pri)}
+	if traceMode {
+		ev.Line = p.traceLines()
+	}
 	if mode == "irq" {
 		// interrupts enabled and an IRQ raised on both interpreters before the step
 		p.pri.I, p.alt.I = 0, 0
@@ -457,6 +548,9 @@ func (p *cpuPair) chain(r *rand.Rand, n int, mode string, kind string, w *json.E
 			break // left native mode (XCE): outside the C01 chain
 		}
 		ev := stepEv{Tag: kind, Seed: int(p.seed), Ov: p.ov(), Pre: pre}
+		if traceMode && projAlt(p.alt) == pre {
+			ev.Line = p.traceLines()
+		}
 		ev.Pri = p.stepPri()
 		ev.Alt = p.stepAlt()
 		w.Encode(&ev)
@@ -490,6 +584,10 @@ func init() {
 			return fmt.Errorf("usage: vh cpu record <mode> <out.ndjson> <n>")
 		}
 		mode := args[1]
+		if strings.HasPrefix(mode, "trace-") { // trace-<mode>: also log what both disassemblers say before each step
+			traceMode = true
+			mode = mode[len("trace-"):]
+		}
 		n, _ := strconv.Atoi(args[3])
 		f, err := os.Create(args[2])
 		if err != nil {
